@@ -216,6 +216,40 @@ def eocd_rules(ctx, facts, rep, rule="C08-EOCD"):
                         covered["size"] = True
                     elif any(q[0] == "call" and q[1].endswith("stream_position") for q in walk(p)) and not (p[0] == "bin"):
                         covered["start"] = True
+    if not all(covered.values()):
+        # the same condition held in a boolean local (`let needs_zip64 = a || b || c; if needs_zip64 {..}`): decide it on the paths that
+        # reach the end record without writing the ZIP64 records -- each of them must have found count, size and start within range
+        from engine.paths import paths as _paths, PathExplosion
+        try:
+            pz = _paths(fz, max_paths=50000)
+        except PathExplosion:
+            pz = []
+        skip = [p_ for p_ in pz if any(e_[1] == "spec::CentralDirectoryEnd::write" for e_ in p_["effects"]) and
+                not any(e_[1] == "spec::Zip64CentralDirectoryEnd::write" for e_ in p_["effects"])]
+        cov = {"count": bool(skip), "size": bool(skip), "start": bool(skip)}
+        for p_ in skip:
+            got = set()
+            for a_, v_ in p_["decisions"]:
+                if a_ == "#iter":
+                    continue
+                m_ = re.match(r"^(Gt|Le)\((.*), (\d+)\)$", a_)
+                if not m_ or (m_.group(1) == "Gt" and v_ != 0) or (m_.group(1) == "Le" and v_ != 1):
+                    continue
+                inner, c_ = m_.group(2), int(m_.group(3))
+                if c_ == ethr and re.search(r"len\(self\.files\)", inner):
+                    got.add("count")
+                if c_ == bthr:
+                    parts = [inner]
+                    if inner.startswith("Ord::max("):
+                        got |= {"size", "start"} if ("Sub(" in inner and inner.count("stream_position") >= 3) else set()
+                    elif inner.startswith("Sub(") and "stream_position" in inner:
+                        got.add("size")
+                    elif inner.startswith("ok(Seek::stream_position"):
+                        got.add("start")
+            for k_ in cov:
+                cov[k_] = cov[k_] and k_ in got
+        for k_ in covered:
+            covered[k_] = covered[k_] or cov[k_]
     for k, v in covered.items():
         ok &= rep.check(v, rule, "skip-implies-fits:%s" % k, where(fz, z[0][1]["span"]),
                         "ZIP64 end records are skipped only when the %s fits its EOCD field" % k,
@@ -256,6 +290,12 @@ def eocd_rules(ctx, facts, rep, rule="C08-EOCD"):
         bi, si, s, flds = ag[0]
         v = norm(ex.operand(flds["end_of_central_directory_offset"], (bi, si)))
         good = v[0] == "bin" and v[1] == "Add" and "stream_position()" in tokens(v)
+        if not good:
+            # ... or the position taken right after the last central header (the minuend of the directory size): the same number
+            agz = list(aggregates(fz, r"^spec::Zip64CentralDirectoryEnd$"))
+            if agz:
+                szz = norm(ex.operand(agz[0][3]["central_directory_size"], (agz[0][0], agz[0][1])))
+                good = szz[0] == "bin" and szz[1] == "Sub" and v == szz[2] and v != szz[3]
         ok &= rep.check(good, rule, "locator:offset", where(fz, s["span"]), "locator points at central_start + central_size", "locator offset = %s" % show(v))
         v = norm(ex.operand(flds["number_of_disks"], (bi, si)))
         ok &= rep.check(v[0] == "const" and v[2] == 1, rule, "locator:disks", where(fz, s["span"]), "total disks = 1", "locator total disks = %s" % show(v))
